@@ -418,6 +418,7 @@ def run(ctx):
     def replayer(ctx2, ob, model):
         return _replay.run_native('c07.py', {'obligation': ob.name}, timeout=300)
     ctx.replayers['*'] = replayer
+    ctx.native_crosschecks.append(('c07.py', {'obligation': ''}, 'every regrouping of the fragments of real messages, memory and file'))
     ctx.assumptions += [
         'fragment stream contract (what C06 proves of the sender): command fragments 1..1,3 then, iff the command set '
         'announces a data set, data fragments 0..0,2; payloads non-empty; one presentation context; a PDU holds '
